@@ -181,6 +181,60 @@ fn judge(kind: &str, s: &(String, BTreeMap<u32, String>), chain: &Arc<Chain>, b:
     })
 }
 
+/// one raw single-field mutation (no hash is recomputed)
+fn raw_mutation(b: &mut SealedBlock, sc2: &mut (String, BTreeMap<u32, String>), f: &str, v: i64) {
+    {
+        let c = b.entity.header_mut().consensus_mut();
+        match f {
+            "height" => c.height = (v as u32).into(),
+            "prevRoot" => c.prev_root = if v == 1 { Bytes32::new([0xAB; 32]) } else { root_at(3) },
+            "time" => c.time = Tai64(v as u64),
+            "appHash" => c.generated.application_hash = Bytes32::new([0xCD; 32]),
+            _ => {}
+        }
+    }
+    {
+        let BlockHeader::V1(h) = b.entity.header_mut();
+        let a = h.application_mut();
+        match f {
+            "da" => a.da_height = (v as u64).into(),
+            "cpv" => a.consensus_parameters_version += 1,
+            "stf" => a.state_transition_bytecode_version += 1,
+            "txRoot" => a.generated.transactions_root = Bytes32::new([0xEF; 32]),
+            "txCount" => a.generated.transactions_count = v as u16,
+            "msgCount" => a.generated.message_receipt_count = 1,
+            "msgRoot" => a.generated.message_outbox_root = Bytes32::new([0x11; 32]),
+            "evRoot" => a.generated.event_inbox_root = Bytes32::new([0x22; 32]),
+            _ => {}
+        }
+    }
+    {
+        let txs = b.entity.transactions_mut();
+        match f {
+            "txInsert" => txs.insert(v as usize, tx(9)),
+            "txRemove" => {
+                txs.remove(v as usize - 1);
+            }
+            "txSwap" => txs.swap(v as usize - 1, v as usize),
+            "txFlip" => flip(&mut txs[v as usize - 1]),
+            _ => {}
+        }
+    }
+    match f {
+        "seal" => b.consensus = Consensus::Genesis(Genesis::default()),
+        "sched" => {
+            let top = sc2.1.range(..=5u32).last().map(|(k, _)| *k);
+            match top {
+                Some(k) => {
+                    sc2.1.insert(k, "KA".into());
+                }
+                None => sc2.0 = "KA".into(),
+            }
+        }
+        _ => {}
+    }
+}
+
 pub fn run(args: &Args) {
     let walks = read_walks(args.req("walks"));
     let mut t = Trace::create(args.req("out"));
@@ -209,63 +263,18 @@ pub fn run(args: &Args) {
                     t.event("New", o);
                     cur = Some((kind, sc, valid));
                 }
-                "Mutate" => {
+                "Mutate" | "Mutate2" => {
                     let (kind, sc, valid) = cur.as_ref().unwrap_or_else(|| die("Mutate before New"));
                     let (f, v, fix) = (s.str_("f"), s.int("v"), s.int("fix"));
+                    let pair = s.name() == "Mutate2";
+                    let (f2, v2) = if pair { (s.str_("f2"), s.int("v2")) } else { ("none", 0) };
                     let mut b = valid.clone();
                     let mut sc2 = sc.clone();
                     let is_tx = f.starts_with("tx") && f != "txRoot" && f != "txCount";
-                    let is_cons = matches!(f, "height" | "prevRoot" | "time" | "appHash");
-                    {
-                        let c = b.entity.header_mut().consensus_mut();
-                        match f {
-                            "height" => c.height = (v as u32).into(),
-                            "prevRoot" => c.prev_root = if v == 1 { Bytes32::new([0xAB; 32]) } else { root_at(3) },
-                            "time" => c.time = Tai64(v as u64),
-                            "appHash" => c.generated.application_hash = Bytes32::new([0xCD; 32]),
-                            _ => {}
-                        }
-                    }
-                    {
-                        let BlockHeader::V1(h) = b.entity.header_mut();
-                        let a = h.application_mut();
-                        match f {
-                            "da" => a.da_height = (v as u64).into(),
-                            "cpv" => a.consensus_parameters_version += 1,
-                            "stf" => a.state_transition_bytecode_version += 1,
-                            "txRoot" => a.generated.transactions_root = Bytes32::new([0xEF; 32]),
-                            "txCount" => a.generated.transactions_count = v as u16,
-                            "msgCount" => a.generated.message_receipt_count = 1,
-                            "msgRoot" => a.generated.message_outbox_root = Bytes32::new([0x11; 32]),
-                            "evRoot" => a.generated.event_inbox_root = Bytes32::new([0x22; 32]),
-                            _ => {}
-                        }
-                    }
-                    {
-                        let txs = b.entity.transactions_mut();
-                        match f {
-                            "txInsert" => txs.insert(v as usize, tx(9)),
-                            "txRemove" => {
-                                txs.remove(v as usize - 1);
-                            }
-                            "txSwap" => txs.swap(v as usize - 1, v as usize),
-                            "txFlip" => flip(&mut txs[v as usize - 1]),
-                            _ => {}
-                        }
-                    }
-                    match f {
-                        "seal" => b.consensus = Consensus::Genesis(Genesis::default()),
-                        "sched" => {
-                            let h = 5u32;
-                            let top = sc2.1.range(..=h).last().map(|(k, _)| *k);
-                            match top {
-                                Some(k) => {
-                                    sc2.1.insert(k, "KA".into());
-                                }
-                                None => sc2.0 = "KA".into(),
-                            }
-                        }
-                        _ => {}
+                    let is_cons = f == "appHash" || f2 == "appHash";
+                    raw_mutation(&mut b, &mut sc2, f, v);
+                    if pair {
+                        raw_mutation(&mut b, &mut sc2, f2, v2);
                     }
                     // the adversary's repairs
                     if fix >= 1 && is_tx {
@@ -309,7 +318,11 @@ pub fn run(args: &Args) {
                     o["f"] = json!(f);
                     o["v"] = json!(v);
                     o["fix"] = json!(fix);
-                    t.event("Mutate", o);
+                    if pair {
+                        o["f2"] = json!(f2);
+                        o["v2"] = json!(v2);
+                    }
+                    t.event(if pair { "Mutate2" } else { "Mutate" }, o);
                 }
                 other => die(&format!("unknown action {other}")),
             }
